@@ -60,6 +60,16 @@ func saveCase(name string, v any) {
 	_ = os.WriteFile(filepath.Join(d, "last-case."+name+".json"), b, 0o644)
 }
 
+// noteFrozen keeps the plan and the goroutine dump of an abandoned bubble for later diagnosis.
+func noteFrozen(name string, p plan, rec *runRec) {
+	d := os.Getenv("VERIF_WORK")
+	if d == "" {
+		return
+	}
+	b, _ := json.Marshal(map[string]any{"plan": p, "goroutines": rec.Res.Goroutines})
+	_ = os.WriteFile(filepath.Join(d, fmt.Sprintf("frozen.%s.%d.json", name, time.Now().UnixNano())), b, 0o644)
+}
+
 func queueLabel() string {
 	if q := os.Getenv("RUEIDIS_QUEUE_TYPE"); q != "" {
 		return q
